@@ -809,6 +809,7 @@ func runReplicas(r *Run, prop string) {
 			if pb.Unmarshal(t.Payload, req) == nil && req.HeadEntryId != nil && req.HeadEntryId.Offset == wal.InvalidOffset {
 				c.cutEmpty[t.Dst] = true
 				r.Count("truncates_to_empty", 1)
+				c.strictNeedsSnapshot(t.Dst) // the leader follows up with a snapshot
 			}
 		}
 	}
